@@ -1,7 +1,9 @@
 #!/bin/sh
-# mkwt.sh <name>: scratch git worktree of /repo under /tmp/wt/<name> with a warm target dir
+# mkwt.sh <name>: scratch git worktree of /repo under /tmp/wt/<name> with a warm target dir (without incremental/examples)
 set -e
 N="$1"
+mkdir -p /tmp/wt
 git -C /repo worktree add --detach "/tmp/wt/$N" HEAD >/dev/null 2>&1
-cp -r /repo/target "/tmp/wt/$N/target"
+mkdir -p "/tmp/wt/$N/target"
+rsync -a --exclude incremental --exclude examples /repo/target/ "/tmp/wt/$N/target/" 2>/dev/null || true
 echo "/tmp/wt/$N"
